@@ -216,8 +216,15 @@ Proof.
   split; [apply (ge1_spec x F); lra|apply sub1_stuck; assumption].
 Qed.
 (** F8 / F7 witnesses: playback_rate 1e300 at 48 kHz gives an increment of 1e300; SecondsPerTick(0.0) gives +inf *)
+Lemma ge_2p55_of_le64 (x : f64) : is_finite x = true -> le64 (Z64 (2 ^ 55)) x = true -> IZR (2 ^ 55) <= B2R x.
+Proof.
+  intros Fx H. unfold le64, fle in H. rewrite Bleb_correct in H by (try exact Fx; reflexivity).
+  assert (E : B2R64 (Z64 (2 ^ 55)) = IZR (2 ^ 55)).
+  { unfold Z64, of_Z. cbn. unfold F2R. cbn. lra. }
+  rewrite E in H. destruct (Rle_bool_spec (IZR (2 ^ 55)) (B2R x)); [assumption|discriminate].
+Qed.
 Example carry_diverges_1e300 : carry_diverges (f64_of_bits 9094988921128908188).
-Proof. right. split; [reflexivity|]. vm_compute. lra. Qed.
+Proof. right. split; [reflexivity|]. apply ge_2p55_of_le64; vm_compute; reflexivity. Qed.
 Example carry_terminates_example :
   exists r, sub1_loop 5 (f64_of_bits 4615063718147915776) = Ok (3%nat, r) /\ bits_of_f64 r = 4602678819172646912%Z.
 Proof. eexists. split; vm_compute; reflexivity. Qed.
